@@ -60,6 +60,9 @@ func (c *fctx) call(fr *frame, in ssa.CallInstruction, reach string, st *state) 
 		// call through an unknown function value: deterministic, effect-free application (assumption)
 		fv := c.operand(fr, cm.Value)
 		c.safety(fr, "nil-func-call", pos, reach, fmt.Sprintf("(not (= %s nilFn))", fv.t))
+		if ct := c.P.Contracts["functype "+types.Unalias(cm.Value.Type()).String()]; ct != nil {
+			return c.applyContract(fr, "functype "+types.Unalias(cm.Value.Type()).String(), ct, nil, cm.Signature(), false, args, st, reach, pos, resT)
+		}
 		return c.applyFnValue(fr, fv.t, cm.Signature(), args, reach, st, resT)
 	}
 	ct := c.P.ContractFor(callee)
@@ -320,6 +323,25 @@ func (c *fctx) applyContract(fr *frame, key string, ct *spec.FuncContract, fn *s
 		}
 		c.addObl(&Obligation{Name: fr.prefix + "call-requires:" + short + "#" + lbl + "@" + c.P.SrcLine(pos), Kind: "requires", Guard: reach, Goal: g.t, Pos: c.pos(pos), SrcLine: c.P.SrcLine(pos), Clause: r.Src})
 	}
+	// recursion: the measure must decrease (lexicographically) and be bounded below
+	if fn != nil && fn == c.fn && len(ct.Decr) > 0 && len(c.fnDecr0) == len(ct.Decr) {
+		var now []string
+		for _, d := range ct.Decr {
+			now = append(now, e.tr(d).t)
+		}
+		var alts []string
+		for i := range now {
+			var cs []string
+			for j := 0; j < i; j++ {
+				cs = append(cs, fmt.Sprintf("(= %s %s)", now[j], c.fnDecr0[j]))
+			}
+			cs = append(cs, fmt.Sprintf("(< %s %s)", now[i], c.fnDecr0[i]), fmt.Sprintf("(>= %s 0)", c.fnDecr0[i]))
+			alts = append(alts, and(cs...))
+		}
+		c.addObl(&Obligation{Name: fr.prefix + "recursion/decreases@" + c.P.SrcLine(pos), Kind: "decreases", Guard: reach, Goal: or(alts...), Pos: c.pos(pos), SrcLine: c.P.SrcLine(pos)})
+	} else if fn != nil && fn == c.fn && len(ct.Decr) == 0 {
+		c.errorf("%s: recursive call without a decreases clause", fn)
+	}
 	// the callee calls some of its function-valued arguments (with arbitrary arguments)
 	for _, inv := range ct.Invokes {
 		for i, n := range pnames {
@@ -432,6 +454,9 @@ func (c *fctx) havocAssigns(fr *frame, ct *spec.FuncContract, e *env, st *state,
 			}
 			// only the cells rooted at w.root change
 			inner := strings.TrimSuffix(strings.TrimPrefix(w.sort, "(Array Int "), ")")
+			if in, ok := locInner[w.key]; ok {
+				inner = in
+			}
 			nv := c.fresh("hv", inner)
 			c.setRegion(st, w.key, w.sort, fmt.Sprintf("(store %s %s %s)", old, w.root, nv))
 		}
@@ -439,6 +464,9 @@ func (c *fctx) havocAssigns(fr *frame, ct *spec.FuncContract, e *env, st *state,
 }
 
 type locWrite struct{ key, sort, root string }
+
+// locInner: sort of one cell for ghost-state regions (regions not indexed by Int), by key.
+var locInner = map[string]string{}
 
 // locWrites interprets one assigns location: a pointer (all fields of the pointee), a slice
 // (its backing array), a map (its entries), or x.f (one field).
@@ -450,10 +478,38 @@ func (c *fctx) locWrites(e *env, loc spec.Expr) []locWrite {
 				if si := c.S.StructOf(pt.Elem()); si != nil {
 					for _, f := range si.Fields {
 						if f.Name == sel.Sel {
-							return []locWrite{{"F:" + si.Name + "." + f.Name, "(Array Int " + f.Sort + ")", base.t}}
+							out := []locWrite{{"F:" + si.Name + "." + f.Name, "(Array Int " + f.Sort + ")", base.t}}
+							// x.f of map or slice type also stands for the contents it currently refers to
+							cur := e.tr(loc)
+							switch ft := types.Unalias(f.T).Underlying().(type) {
+							case *types.Map:
+								out = append(out, locWrite{c.mapHasKey(ft), c.mapHasSort(ft), cur.t}, locWrite{c.mapValKey(ft), c.mapValSort(ft), cur.t}, locWrite{c.mapLenKey(ft), "(Array Int Int)", cur.t})
+							case *types.Slice:
+								out = append(out, locWrite{c.elemKey(ft.Elem()), c.elemSort(c.S.SortOf(ft.Elem())), "(sbase " + cur.t + ")"})
+							}
+							return out
 						}
 					}
 				}
+			}
+		}
+	}
+	if cl, ok := loc.(*spec.Call); ok {
+		if id, ok := cl.Fun.(*spec.Ident); ok {
+			if pf := c.P.Pures[id.Name]; pf != nil && pf.State && len(cl.Args) == 1 {
+				file := c.P.FileOfPkg[pf.File]
+				_, ps, err1 := c.P.ResolveType(pf.Params[0].Type, file, c.S)
+				_, rs, err2 := c.P.ResolveType(pf.Result, file, c.S)
+				if pf.Result == "bool" {
+					rs, err2 = "Bool", nil
+				}
+				if err1 != nil || err2 != nil {
+					c.errorf("assigns: cannot resolve ghost state %s", id.Name)
+					return nil
+				}
+				a := e.tr(cl.Args[0])
+				locInner["X:"+pf.Name] = rs
+				return []locWrite{{"X:" + pf.Name, "(Array " + ps + " " + rs + ")", a.t}}
 			}
 		}
 	}
@@ -548,6 +604,9 @@ func (c *fctx) builtin(fr *frame, b *ssa.Builtin, cm *ssa.CallCommon, reach stri
 		return val{t: fmt.Sprintf("(ite (%s %s %s) %s %s)", op, a, bb, a, bb)}
 	case "print", "println":
 		return val{}
+	case "recover":
+		c.used["abstracted:recover() returns an arbitrary value (panics inside the protected region are not modelled)"] = true
+		return val{t: c.fresh("recovered", "Iface")}
 	}
 	c.errorf("%s: unsupported builtin %s", fr.fn, b.Name())
 	return c.havocResult(resT, reach, st)
